@@ -93,6 +93,7 @@ class AoefSim:
         self.skew = {}  # node -> seconds its clock is off
         self.memdocs = {}  # in-memory AOEF documents kept by a node
         self.locales = {}  # node -> LC_CTYPE of that "machine"
+        self.zones = {}  # node -> TZ of that "machine"
         self.known = []
         self.known_hits = Counter()
         os.makedirs(run_dir, exist_ok=True)
@@ -137,6 +138,7 @@ class AoefSim:
         local = self.now + dt.timedelta(seconds=self.skew.get(node, 0))
         return {
             "locale": self.locales.get(node, "C.utf8"),
+            "tz": self.zones.get(node),
             "clock": local.isoformat(),
             "uuid_stream": (self.seed_tag + self.i) & 0xFFFF,
             "fault": fault,
@@ -257,6 +259,11 @@ class AoefSim:
             self.record(op, "ok")
             self.trace.append(("restart",))
             self.probes.hit("restart")
+        elif kind == "tz":
+            self.zones[op["node"]] = op["name"]
+            self.record(op, "ok")
+            self.trace.append(("tz", op["name"]))
+            self.probes.hit("node-time-zone-set")
         elif kind == "locale":
             self.locales[op["node"]] = op["name"]
             self.record(op, "ok")
@@ -1382,6 +1389,12 @@ def gen_ops(rng, cfg, seed_tag) -> list:
         for n in range(cfg["n_nodes"]):
             if n == ascii_node or rng.random() < 0.3:
                 gen.emit({"op": "locale", "node": n, "name": "C"})
+    if cfg["n_nodes"] > 1 and rng.random() < 0.25:
+        # machines in different time zones
+        for n in range(cfg["n_nodes"]):
+            gen.emit({"op": "tz", "node": n, "name": rng.choice(
+                ["UTC", "Asia/Kolkata", "America/St_Johns",
+                 "Pacific/Auckland", "America/Los_Angeles"])})
     if cfg["n_nodes"] > 1 and rng.random() < 0.3:
         for n in range(cfg["n_nodes"]):
             gen.emit({"op": "skew", "node": n, "seconds": rng.choice(
@@ -1482,6 +1495,7 @@ CORE_PROBES = {
         "save:document>=100kB",
         "clock-skew-between-nodes",
         "node-locale:C",
+        "node-time-zone-set",
     ]
     + [f"load:checked:{t}" for t in COLLECTION_TYPE.values()]
     + WRITE_FAULTS
